@@ -293,6 +293,43 @@ def search_ser(run, cfg, G):
     diff_run(run, G, ["ser"], "ser", ser_nontrivial, "ser-search", tier="thorough", seed_offset=0, record=False)
 
 
+# ------------------------------------------------------------------------------------ chain (C06)
+
+def chain_nontrivial(inp, impl):
+    ks = []
+    parts = impl.split(";")
+    st = parts[1].split() if len(parts) > 1 else []
+    if any(t.startswith("it:") for t in st):
+        ks.append("items-yielded")
+    if "ended" in st:
+        ks.append("stream-ended")
+    if "pend" in st:
+        ks.append("pending-poll")
+    k = inp.split(" F")[0]
+    if " o:" in k:
+        ks.append("has-oneway")
+    if " m:" in k:
+        ks.append("has-more")
+    if " o:" in k and " m:" not in k and " p:" not in k:
+        ks.append("all-oneway")
+    if "=c=" in inp:
+        ks.append("continuing-replies")
+    if " T " in inp and not inp.split(" T ")[1].startswith("S"):
+        ks.append("trailing-frames")
+    return ks
+
+
+def run_chain(run, cfg, G):
+    diff_run(run, G, ["chain"], "chain", chain_nontrivial, "chain")
+    def search():
+        diff_run(run, G, ["chain"], "chain", chain_nontrivial, "chain-search", tier="thorough", seed_offset=1, record=False)
+    finish_corr(run, G, [search])
+    run.cov["rule"] = ("all 1092 chains of 1..6 calls over {plain, oneway, more} (x2 quick, x12 thorough random instantiations) built through Connection::chain_call/append/send, each with a conforming reply "
+                       "script (0..3 continuing replies before the final reply or declared error of a more call), 0..2 trailing unrelated frames, random cuts / read sizes / poll points, plus every single "
+                       "cut position of the reply bytes for 12 (60) short chains; the reply stream is polled by hand, dropped, and the connection then receives the remaining frames; "
+                       "observation = write boundaries, stream items, frames still receivable; non-trivial = items yielded / stream ended / pending seen; distinct = distinct case lines")
+
+
 RX_ASSUME = [
     "which bytes are a JSON document of the requested shape is serde_json/serde's business: the model takes `decode this frame` as an opaque per-frame function (theorems hold for every such function); the harness instantiates it with the verdict of a fresh connection receiving that frame alone and cross-checks call receivers against serde_json::from_slice",
     "the ReadHalf contract: a read future that is dropped while pending has consumed nothing",
@@ -342,6 +379,16 @@ PROPS = {
         "theorems": ["C01.C01_framing", "C01.C01_poll", "C01.C01_errors_local", "C01.C01_oracle"],
         "run": run_rx, "search": search_rx,
         "trusted_base": TB_COMMON, "assumptions": RX_ASSUME,
+    },
+    "C06": {
+        "property_modules": ["Zlink.Properties.C06"],
+        "lean_modules": ["Zlink.Properties.C06"],
+        "theorems": ["C06.C06_owed", "C06.C06_all_oneway", "C06.C06_stops_on_transport_error", "C06.C06_one_write", "C06.C06_oracle"],
+        "run": run_chain, "trusted_base": TB_COMMON,
+        "assumptions": RX_ASSUME[1:] + [
+            "what receive_reply makes of a frame (continuing reply / final reply / method error / general error) is a parameter `kind` of the stream model; the harness derives it from the frame's JSON and the reference receive",
+            "conforming server scripts only: a reply that names an org.varlink.service error, or an undecodable reply, ends the stream by design (`Err(_)` arm) and is outside the property's quantifier",
+        ],
     },
     "C07": {
         "property_modules": ["Zlink.Properties.C07"],
